@@ -127,7 +127,11 @@ Proof.
 Qed.
 
 Lemma gen_U_fmt_Debug w N fuel a : FmtGen.U_fmt_Debug w N fuel a = of_oo (Fmt.U_fmt_Debug w a).
-Proof. unfold FmtGen.U_fmt_Debug, Fmt.U_fmt_Debug. rewrite gen_U_fmt_Display. apply bind_ret_oo. Qed.
+Proof.
+  (* by unfolding, so that `Display::fmt(&self, f)` and an inlined copy of Display's body are both accepted *)
+  unfold FmtGen.U_fmt_Debug, FmtGen.U_fmt_Display, Fmt.U_fmt_Debug, Fmt.U_fmt_Display. cbv zeta.
+  destruct (RadixOut.U_to_str_radix w a 10) as [[s|]|]; reflexivity.
+Qed.
 
 (* ---------- exp_fmt!: LowerExp, UpperExp ---------- *)
 
